@@ -710,3 +710,138 @@ Theorem pwg_guard i : is_ordinal (data_type i) = false -> order_to_pwg i = Err I
 Proof. intros H. unfold order_to_pwg, pairwise_scores. rewrite H. reflexivity. Qed.
 Theorem pwg_defined i : is_ordinal (data_type i) = true -> exists g, order_to_pwg i = Ok g.
 Proof. intros H. unfold order_to_pwg, pairwise_scores. rewrite H. simpl. eauto. Qed.
+
+(* ------------------------------------------------------------------------------------------ *)
+(** * borda_scores *)
+
+Definition getd (r : row) (c : N) : Z := match rget r c with Some v => v | None => 0 end.
+
+Lemma rget_dd_add r a d c :
+  rget (dd_add r a d) c = if N.eqb a c then Some (getd r c + d) else rget r c.
+Proof.
+  unfold getd. induction r as [|[x v] r IH]; simpl.
+  - destruct (N.eqb a c); reflexivity.
+  - destruct (N.eqb_spec x a) as [E|E]; simpl.
+    + subst. destruct (N.eqb a c); reflexivity.
+    + rewrite IH. destruct (N.eqb_spec x c) as [E2|E2]; [|reflexivity].
+      subst. destruct (N.eqb_spec a c); [congruence | reflexivity].
+Qed.
+
+Definition bupd := (N * Z)%type.
+Definition dd_apply (r : row) (us : list bupd) : row := fold_left (fun r u => dd_add r (fst u) (snd u)) us r.
+Definition bhits (us : list bupd) (c : N) : Z := zsum (fun u => if N.eqb (fst u) c then snd u else 0) us.
+
+Lemma bhits_notin us c : mem c (map fst us) = false -> bhits us c = 0.
+Proof.
+  intros H. apply zsum_zero. intros [a d] Hin. simpl.
+  destruct (N.eqb_spec a c); [|reflexivity]. subst. exfalso.
+  apply mem_false in H. apply H. apply in_map_iff. exists (c, d). split; [reflexivity | exact Hin].
+Qed.
+
+Lemma rget_dd_apply us : forall r c,
+  rget (dd_apply r us) c = if mem c (map fst us) then Some (getd r c + bhits us c) else rget r c.
+Proof.
+  induction us as [|[a d] us IH]; intros r c; [reflexivity|].
+  change (dd_apply r ((a, d) :: us)) with (dd_apply (dd_add r a d) us). rewrite IH.
+  change (bhits ((a, d) :: us) c) with ((if N.eqb a c then d else 0) + bhits us c).
+  change (mem c (map fst ((a, d) :: us))) with (N.eqb c a || mem c (map fst us)).
+  unfold getd at 1. rewrite !rget_dd_add. rewrite (N.eqb_sym c a).
+  destruct (N.eqb a c); simpl; destruct (mem c (map fst us)) eqn:Em; try reflexivity.
+  - f_equal. ring.
+  - rewrite (bhits_notin _ _ Em). f_equal. ring.
+Qed.
+
+Lemma dd_apply_app r u1 u2 : dd_apply r (u1 ++ u2) = dd_apply (dd_apply r u1) u2.
+Proof. unfold dd_apply. apply fold_left_app. Qed.
+Lemma bhits_app u1 u2 c : bhits (u1 ++ u2) c = bhits u1 c + bhits u2 c.
+Proof. apply zsum_app. Qed.
+
+Lemma fold_dd_add v cls : forall r,
+  fold_left (fun r alt => dd_add r alt v) cls r = dd_apply r (map (fun a => (a, v)) cls).
+Proof. induction cls as [|x cls IH]; intros r; [reflexivity|]. simpl. rewrite IH. reflexivity. Qed.
+
+Fixpoint bups (k i : Z) (o : order) : list bupd :=
+  match o with
+  | [] => []
+  | cls :: r => let i' := i - Z.of_nat (length cls) in
+                map (fun a => (a, i' * k)) cls ++ bups k i' r
+  end.
+
+Lemma fold_bd_class k o : forall r i, fst (fold_left (bd_class k) o (r, i)) = dd_apply r (bups k i o).
+Proof.
+  induction o as [|cls o IH]; intros r i; [reflexivity|].
+  cbn [fold_left bups]. unfold bd_class at 2. rewrite IH, fold_dd_add, dd_apply_app. reflexivity.
+Qed.
+
+Definition bups_profile (m : Z) (p : list (order * N)) : list bupd :=
+  flat_map (fun ok => bups (Z.of_N (snd ok)) m (fst ok)) p.
+
+Lemma borda_table_ups i : borda_table i = dd_apply [] (bups_profile (Z.of_N (num_alternatives i)) (mult i)).
+Proof.
+  unfold borda_table, bups_profile. generalize (@nil (N * Z)).
+  induction (mult i) as [|[o k] p IH]; intros r; [reflexivity|].
+  simpl. rewrite IH, dd_apply_app. unfold bd_order. simpl. rewrite fold_bd_class. reflexivity.
+Qed.
+
+Lemma keys_bups k o : forall i, map fst (bups k i o) = concat o.
+Proof.
+  induction o as [|cls o IH]; intros i; [reflexivity|].
+  simpl. rewrite map_app, map_map, IH. simpl. rewrite map_id. reflexivity.
+Qed.
+
+Lemma mem_flat_map {X} (g : X -> list N) l c : mem c (flat_map g l) = existsb (fun x => mem c (g x)) l.
+Proof. induction l; simpl; [reflexivity | rewrite mem_app, IHl; reflexivity]. Qed.
+
+Lemma keys_bups_profile m p c : mem c (map fst (bups_profile m p)) = ranked p c.
+Proof.
+  unfold bups_profile, ranked. induction p as [|[o k] p IH]; [reflexivity|].
+  cbn [flat_map existsb fst snd]. rewrite map_app, mem_app, keys_bups. f_equal. exact IH.
+Qed.
+
+Lemma bhits_const v cls c : bhits (map (fun a => (a, v)) cls) c = v * cnt c cls.
+Proof.
+  unfold bhits, cnt. rewrite zsum_map. simpl. induction cls as [|x cls IH]; simpl; [ring|].
+  rewrite IH. unfold ind. rewrite (N.eqb_sym c x). destruct (N.eqb x c); ring.
+Qed.
+
+Lemma bhits_bups k o : forall i c, NoDup (concat o) -> bhits (bups k i o) c = borda_pts i o c * k.
+Proof.
+  induction o as [|cls o IH]; intros i c Hnd.
+  - unfold bhits, borda_pts. simpl. ring.
+  - simpl in Hnd. apply NoDup_app_iff in Hnd. destruct Hnd as [Hc [Ho Hd]].
+    cbn [bups]. cbv zeta. rewrite bhits_app, bhits_const, (IH _ c Ho), (cnt_NoDup _ _ Hc).
+    unfold borda_pts. cbn [class_index]. destruct (mem c cls) eqn:Em.
+    + rewrite (class_index_none o c (disjoint_mem _ _ c Hd Em)).
+      rewrite firstn_cons, firstn_O, concat_cons, concat_nil, app_nil_r. simpl b2z. ring.
+    + destruct (class_index o c) as [j|]; cbn [option_map b2z]; [|ring].
+      rewrite (firstn_cons (S j)), concat_cons, app_length, Nat2Z.inj_add. ring.
+Qed.
+
+Lemma bhits_profile m p c : orders_nodup p -> bhits (bups_profile m p) c = borda_total m p c.
+Proof.
+  unfold bups_profile, borda_total. induction 1 as [|[o k] p Ho Hp IH]; [reflexivity|].
+  simpl. rewrite bhits_app, IH, (bhits_bups _ _ _ _ Ho). reflexivity.
+Qed.
+
+Theorem borda_correct i : wf_inst i -> is_complete_type (data_type i) = true ->
+  exists r, borda_scores i = Ok r /\
+    forall a, rget r a = if ranked (mult i) a
+                         then Some (borda_total (Z.of_N (num_alternatives i)) (mult i) a)
+                         else None.
+Proof.
+  intros Hwf Ht. unfold borda_scores. rewrite Ht. eexists. split; [reflexivity|].
+  intros a. rewrite borda_table_ups, rget_dd_apply, keys_bups_profile.
+  rewrite (bhits_profile _ _ _ (wf_orders_nodup i Hwf)). unfold getd. simpl.
+  destruct (ranked (mult i) a); reflexivity.
+Qed.
+
+(* the documented convention: on a complete order, with m = number of alternatives, the class of a gets
+   the number of alternatives ranked strictly below it *)
+Lemma borda_pts_complete (al : list N) o a j :
+  Permutation (concat o) al -> class_index o a = Some j ->
+  borda_pts (Z.of_nat (length al)) o a = Z.of_nat (length (concat (skipn (S j) o))).
+Proof.
+  intros Hp Hj. unfold borda_pts. rewrite Hj.
+  rewrite <- (Permutation_length Hp). rewrite <- (firstn_skipn (S j) o) at 1.
+  rewrite concat_app, app_length. lia.
+Qed.
